@@ -99,7 +99,10 @@ def run(chk):
     c20_discovery.discovery_tie(chk)
     n = 1500 if chk.tier == "quick" else 60000
     cases = [sc.gen_gather(chk.rng, i) for i in range(n)]
+    mixed = chk.sub_rng("mixed-lookups")
+    mcases = [sc.gen_gather(mixed, 100000 + i, mixed=True) for i in range(n // 8)]
     sc.run_sim(chk, cases, oracle, "sim-C20", token="gathering-done")
+    sc.run_sim(chk, mcases, oracle, "sim-C20-mixed-lookups", token="gathering-done", compare=False)
     return chk.finish(**FINISH)
 
 
